@@ -255,11 +255,42 @@ def main(argv=None):
         for j in jobs:
             results.append(_run_instance(j))
     else:
-        with ctx.Pool(args.jobs, initializer=_worker_init, initargs=(args.root, modname)) as pool:
-            for r in pool.imap_unordered(_run_instance, jobs, chunksize=1):
+        import threading
+        done_evt = threading.Event()
+        lock = threading.Lock()
+
+        def _cb(r):
+            with lock:
                 results.append(r)
                 if args.verbose:
                     print("  %-70s %-12s paths=%d q=%d %.2fs %s" % (r["name"][:70], r["status"], r["paths"], r["queries"], r["wall_s"], (r["reason"] or "")[:200]), flush=True)
+            done_evt.set()
+
+        pool = ctx.Pool(args.jobs, initializer=_worker_init, initargs=(args.root, modname))
+        try:
+            for j in jobs:
+                pool.apply_async(_run_instance, (j,), callback=_cb, error_callback=lambda e: done_evt.set())
+            pool.close()
+            # watchdog: a worker that dies (segfault, OOM kill) loses its task silently; never wait forever
+            stall = max(b for _, _, b in jobs) * 1.5 + 60
+            while True:
+                with lock:
+                    n = len(results)
+                if n >= len(jobs):
+                    break
+                done_evt.clear()
+                if not done_evt.wait(stall):
+                    with lock:
+                        if len(results) == n:
+                            break
+        finally:
+            pool.terminate()
+        got = set(r["name"] for r in results)
+        for inst, _, _ in jobs:
+            if inst["name"] not in got:
+                results.append(dict(name=inst["name"], status="inconclusive", reason="no result from the worker process (crashed or stalled)", paths=0, aborted=0,
+                                    queries=0, solver_s=0.0, decisions=0, obligations=0, branches=0, classes={}, wall_s=0.0, functions=[], replays=0,
+                                    witness=None, violation=None, params=inst["params"]))
     results.sort(key=lambda r: names.index(r["name"]))
     known = load_known(prop)
     viol, knownhits, incon, errors = [], [], [], []
